@@ -76,7 +76,7 @@ def run(ctx):
     quick = ctx.tier == "quick"
     ctx.rule = ("streams of 0-8 messages (payload lengths boundary-biased up to 4096), each fed to asyncio.StreamReader under several "
                 "chunkings: whole, whole with the end of stream fed before the reader runs, 1-byte chunks, every single cut, random cuts; all cut PAIRS for streams <= 40 bytes; (thorough) every "
-                "cut SET of a 16/17-byte stream; truncation at every position; one corrupted header field; a corrupted header whose payload is cut short; a case = (stream, chunking), "
+                "cut SET of a 16/17-byte stream; truncation at every position; one corrupted header field; streams whose messages share the last header word with a later length field below 8; a corrupted header whose payload is cut short; a case = (stream, chunking), "
                 "non-trivial when distinct; each stream result is compared with datagram decoding of the concatenation (the property) and with the model")
     ctx.assumptions = ["asyncio.StreamReader.readexactly is chunking-independent (exercised, not modelled): the model reads from the concatenated stream"]
     loop = asyncio.new_event_loop()
@@ -111,6 +111,26 @@ def run(ctx):
             data = bytes(d)
             kind = "corrupted"
         streams.append((data, kind))
+    # messages of one stream that share interface version, message type and return code (as the messages of one connection
+    # do), a LATER one with a length field below 8 / beyond the stream / a bad version - whatever the reader learnt from the
+    # earlier ones, it must reject exactly as datagram decoding does
+    import random
+    r2 = random.Random(ctx.seed * 7919 + 18)      # a stream of its own: the streams above stay what they were
+    for k in range(40 if quick else 800):
+        base = gen.message(r2, maxlen=12)
+        ms = [H.SOMEIPHeader(r2.getrandbits(16), r2.getrandbits(16), r2.getrandbits(16), r2.getrandbits(16), base.interface_version, base.message_type, 1,
+                             base.return_code, bytes(r2.getrandbits(8) for _ in range(r2.choice([0, 1, 5, 12])))) for _ in range(r2.randint(2, 4))]
+        data = bytearray(b"".join(bytes(m.build()) for m in ms))
+        j = r2.randrange(1, len(ms))
+        off = sum(len(m.payload) + 16 for m in ms[:j])
+        c = r2.random()
+        if c < 0.6:
+            data[off + 4:off + 8] = r2.choice([0, 1, 7, 7, 3]).to_bytes(4, "big")
+        elif c < 0.8:
+            data[off + 4:off + 8] = r2.choice([0xFFFFFFFF, 0x80000000, len(data)]).to_bytes(4, "big")
+        else:
+            data[off + 12] = r2.choice([0, 2])
+        streams.append((bytes(data), "same-tail-corrupted"))
     # short streams for the exhaustive cut sets
     tiny = gen.message(r, maxlen=0)
     tiny = H.SOMEIPHeader(tiny.service_id, tiny.method_id, tiny.client_id, tiny.session_id, tiny.interface_version, tiny.message_type, 1, tiny.return_code, b"")
